@@ -244,9 +244,11 @@ struct Rw<'a> {
     ring: bool,
     machine: Vec<String>,
     qnames: Vec<String>,
+    qprefix: &'a str,
     index2: bool,
     index1: Vec<String>,
     boolor: bool,
+    fold_loops: bool,
     for_range: bool,
     subst: Vec<(String, String)>,
     sections: &'a BTreeMap<String, String>,
@@ -344,11 +346,11 @@ impl<'a> Rw<'a> {
         }
     }
     /// second operator family (option `q=`): operands mentioning one of these names use q-prefixed helpers
-    fn fam(&self, es: &[&Expr]) -> &'static str {
+    fn fam(&self, es: &[&Expr]) -> &str {
         if self.qnames.is_empty() { return ""; }
         let mut v = vec![];
         for e in es { Self::leaf_names(e, &mut v); }
-        if v.iter().any(|n| self.qnames.contains(n)) { "q" } else { "" }
+        if v.iter().any(|n| self.qnames.contains(n)) { self.qprefix } else { "" }
     }
     fn macro_name(mac: &syn::Macro) -> String {
         mac.path.segments.last().map(|s| s.ident.to_string()).unwrap_or_default()
@@ -380,6 +382,21 @@ impl<'a> Rw<'a> {
                 };
                 let f = if name.starts_with("debug") { "rt_debug_assert" } else { "rt_assert" };
                 Some(format!("{}({})", f, cmp))
+            }
+            "vec" => {
+                // R17: `vec![a, b, ..]` -> `{ let mut __v = Vec::new(); __v.push(a); ..; __v }`  (list form only)
+                if mac.tokens.to_string().contains(';') && self.render_tokens_as_exprs(&mac.tokens).is_none() {
+                    self.err("unsupported-construct", "vec![x; n] in body".into());
+                    return None;
+                }
+                let items = self.render_tokens_as_exprs(&mac.tokens)?;
+                self.count("R17");
+                if items.is_empty() {
+                    Some("Vec::new()".to_string())
+                } else {
+                    let pushes: Vec<String> = items.iter().map(|x| format!("__v.push({x});")).collect();
+                    Some(format!("{{ let mut __v = Vec::new(); {} __v }}", pushes.join(" ")))
+                }
             }
             "panic" | "unreachable" | "todo" | "unimplemented" => {
                 self.count("R2");
@@ -674,6 +691,37 @@ impl<'a, 'b, 'ast> Visit<'ast> for Collector<'a, 'b> {
                 }
                 visit::visit_expr(self, e);
             }
+            Expr::MethodCall(c) if rw.fold_loops && c.method == "fold" && c.args.len() == 2 && matches!(&c.args[1], Expr::Closure(cl) if cl.inputs.len() == 2) => {
+                // R16 (option fold_loops=1): `V.iter().fold(init, |a, x| B)` / `V.iter().rev().fold(init, |a, x| B)` over a Vec ->
+                // the index loop these adaptors perform (front to back, resp. back to front)
+                let (mut recv, mut rev) = (&*c.receiver, false);
+                if let Expr::MethodCall(m) = recv { if m.method == "rev" && m.args.is_empty() { rev = true; recv = &*m.receiver; } }
+                let base = match recv { Expr::MethodCall(m) if m.method == "iter" && m.args.is_empty() => Some(&*m.receiver), _ => None };
+                if let (Some(base), Expr::Closure(cl)) = (base, &c.args[1]) {
+                    let idx = rw.loop_idx.get();
+                    rw.loop_idx.set(idx + 1);
+                    let a = e.span().byte_range().start;
+                    let b = cl.span().byte_range().start;
+                    rw.loop_headers.borrow_mut().push(rw.src[a..b].split_whitespace().collect::<Vec<_>>().join(" "));
+                    let v = rw.render_expr(base);
+                    let init = rw.render_expr(&c.args[0]);
+                    let pa = &rw.src[cl.inputs[0].span().byte_range()];
+                    let px = &rw.src[cl.inputs[1].span().byte_range()];
+                    let body = rw.render_expr(&cl.body);
+                    let inv = rw.section(&format!("loop {idx}")).map(|t| mark(t)).unwrap_or_default();
+                    let end = rw.section(&format!("loop {idx} end")).map(|t| format!("proof {{ //@p\n{}\n}} //@p\n", mark(t))).unwrap_or_default();
+                    let text = if rev {
+                        format!("{{ let mut __acc{idx} = {init}; let mut __k{idx} = {v}.len();\nwhile __k{idx} > 0\n{inv}\ndecreases __k{idx}, //@p\n{{ __k{idx} -= 1; let {pa} = __acc{idx}; let {px} = &{v}[__k{idx}]; __acc{idx} = {body};\n{end} }} __acc{idx} }}")
+                    } else {
+                        format!("{{ let mut __acc{idx} = {init}; let __n{idx} = {v}.len(); let mut __k{idx} = 0;\nwhile __k{idx} < __n{idx}\n{inv}\ndecreases __n{idx} - __k{idx}, //@p\n{{ let {pa} = __acc{idx}; let {px} = &{v}[__k{idx}]; __k{idx} += 1; __acc{idx} = {body};\n{end} }} __acc{idx} }}")
+                    };
+                    rw.count("R16");
+                    let sp = e.span().byte_range();
+                    self.edits.push((sp.start, sp.end, text));
+                } else {
+                    visit::visit_expr(self, e);
+                }
+            }
             Expr::MethodCall(c) if c.method == "extend" && c.args.len() == 1 && matches!(c.args.first(), Some(Expr::Range(_))) => {
                 // R8: v.extend(a .. b)
                 if let Some(Expr::Range(r)) = c.args.first() {
@@ -847,9 +895,11 @@ fn extract_body(repo: &Path, source: &str, d: &Directive, variant: &str) -> Resu
         ring: d.opts.get("ring").map(|v| v == "1").unwrap_or(false),
         machine: d.opts.get("machine").map(|s| s.split(',').map(|x| x.to_string()).collect()).unwrap_or_default(),
         qnames: d.opts.get("q").map(|s| s.split(',').map(|x| x.to_string()).collect()).unwrap_or_default(),
+        qprefix: d.opts.get("qname").map(|s| s.as_str()).unwrap_or("q"),
         index2: d.opts.get("index2").map(|v| v == "1").unwrap_or(false),
         index1: d.opts.get("index1").map(|s| s.split(',').map(|x| x.to_string()).collect()).unwrap_or_default(),
         boolor: d.opts.get("boolor").map(|v| v == "1").unwrap_or(false),
+        fold_loops: d.opts.get("fold_loops").map(|v| v == "1").unwrap_or(false),
         for_range: d.opts.get("for_range").map(|v| v == "1").unwrap_or(false),
         subst,
         sections: &d.sections,
